@@ -1,5 +1,6 @@
 import Bandit.Plugins.Shell
 import Bandit.Gen.Defaults
+import Bandit.Gen.Regexes
 import Bandit.Proofs.C01
 /-!
 # C14 — Process-spawning checks follow the documented decision table
@@ -128,12 +129,114 @@ theorem b606_table (h : Ok cfg e c kws as) :
   simp only [h.cfgTruthy, h.hasNo, pure, Except.pure, if_true, Bool.not_true, Bool.false_eq_true, if_false, bind, Except.bind]
   by_cases hq : e.qual ∈ cfg.noShell <;> simp [hq]
 
+/-- the command text B609 looks at: a string argument as it is, a list display joined with blanks
+(every element rendered as `str()` would), anything else nothing -/
+def wildcardText : PyVal → Str
+  | .list xs => xs.flatMap (fun x => ' ' :: pyFormat x)
+  | .str s => s
+  | _ => []
+
+/-- **B609**: `chown`/`chmod`/`tar`/`rsync` with `*` in the first positional argument of a call that
+runs under a shell — a shell-family function, or a subprocess-family function with `shell=True` —
+is reported HIGH/MEDIUM on the `shell=` keyword's line; everything else is silent.  `a` is the
+evaluated first argument and `sh` the verdict of `check_call_arg_value("shell", "True")`; both
+evaluations are total (`Props.C06.evaluators_total`). -/
+theorem b609_table (h : Ok cfg e c kws as) (a : PyVal) (sh : Option Bool)
+    (ha : c.argAt 0 = .ok a) (hsh : c.checkArg "shell" [.str "True".toList] = .ok sh) :
+    b609 cfg e = .ok (
+      if (cfg.shell.contains e.qual || (cfg.subprocess.contains e.qual && sh == some true))
+          && decide (c.args.length ≥ 1) && !(wildcardText a).isEmpty
+          && (vulnerableFuncs.any (fun f => Str.isInfix f (wildcardText a)) && (wildcardText a).contains '*')
+      then some { sev := .high, conf := .medium, loc := .kw ["shell"] } else none) := by
+  unfold b609
+  simp only [h.call, h.hasSh, h.hasSub, bind, Except.bind, pure, Except.pure, Bool.and_self, Bool.not_true,
+    Bool.false_eq_true, if_false]
+  by_cases hq : cfg.shell.contains e.qual = true
+  · simp only [hq, if_true, Bool.true_or, Bool.true_and]
+    by_cases hl : c.args.length ≥ 1
+    · simp only [hl, if_true, ha, decide_true, Bool.true_and]
+      cases a <;> simp only [wildcardText] <;> (repeat' split) <;> simp_all <;> assumption
+    · simp [hl]
+  · simp only [hq, Bool.false_eq_true, if_false, Bool.false_or]
+    by_cases hs : cfg.subprocess.contains e.qual = true
+    · simp only [hs, if_true, hsh, Bool.true_and]
+      by_cases hb : (sh == some true) = true
+      · simp only [hb, if_true, Bool.true_and]
+        by_cases hl : c.args.length ≥ 1
+        · simp only [hl, if_true, ha, decide_true, Bool.true_and]
+          cases a <;> simp only [wildcardText] <;> (repeat' split) <;> simp_all <;> assumption
+        · simp [hl]
+      · simp [hb]
+    · have hs' : e.qual ∉ cfg.subprocess := by simpa using hs
+      simp [hs']
+
 /-- the executable named by the first positional argument: the literal itself, or the first
 element of a non-empty list display -/
 def exeLiteral (c : CallView) : Option Str :=
   match c.args with
   | [] => none
   | a :: _ => (exeNode a).strConst?
+
+/-! ## The executable-path pattern of B607 -/
+
+/-- the hand-written matcher stands for *this* source (regenerated from /repo; no flags) -/
+theorem full_path_source_known :
+    Gen.fullPathMatchPattern = "^(?:[A-Za-z](?=\\:)|[\\\\\\/\\.])".toList ∧
+    Gen.fullPathMatchIgnoreCase = false := by
+  decide +kernel
+
+/-- `Char.isAlpha` of this Lean version is `isUpper || isLower`, both ASCII ranges; together with the
+model's `< 128` guard it is exactly `[A-Za-z]` -/
+theorem isAlpha_ascii_iff (c : Char) :
+    (c.isAlpha && decide (c.toNat < 128)) = true ↔
+      ((65 ≤ c.toNat ∧ c.toNat ≤ 90) ∨ (97 ≤ c.toNat ∧ c.toNat ≤ 122)) := by
+  simp only [Char.isAlpha, Char.isUpper, Char.isLower, Bool.and_eq_true, Bool.or_eq_true, decide_eq_true_eq,
+    UInt32.le_iff_toNat_le, Char.toNat]
+  constructor
+  · rintro ⟨h, _⟩
+    rcases h with h | h
+    · left; exact h
+    · right; exact h
+  · intro h
+    refine ⟨?_, ?_⟩
+    · rcases h with h | h
+      · left; exact h
+      · right; exact h
+    · rcases h with h | h <;> omega
+
+/-- **The matcher is the pattern.**  `full_path_match.match(s)` succeeds iff `s` starts with an ASCII
+letter followed by `:` (the look-ahead `(?=\:)`), or with a backslash, a slash or a dot. -/
+theorem full_path_match_is_pattern (s : Str) :
+    fullPathMatch s = true ↔
+      (∃ c rest, s = c :: ':' :: rest ∧
+          ((65 ≤ c.toNat ∧ c.toNat ≤ 90) ∨ (97 ≤ c.toNat ∧ c.toNat ≤ 122))) ∨
+      (∃ c rest, s = c :: rest ∧ (c = '\\' ∨ c = '/' ∨ c = '.')) := by
+  cases s with
+  | nil => simp [fullPathMatch]
+  | cons c rest =>
+    simp only [fullPathMatch, Bool.or_eq_true, Bool.and_eq_true, beq_iff_eq, List.cons.injEq]
+    constructor
+    · rintro (((⟨ha, hh⟩ | h) | h) | h)
+      · left
+        cases rest with
+        | nil => simp at hh
+        | cons d rest' =>
+          simp only [List.head?_cons, Option.some.injEq] at hh
+          subst hh
+          exact ⟨c, rest', ⟨rfl, rfl⟩, (isAlpha_ascii_iff c).mp (by simp [ha.1, ha.2])⟩
+      · right; exact ⟨c, rest, ⟨rfl, rfl⟩, Or.inl h⟩
+      · right; exact ⟨c, rest, ⟨rfl, rfl⟩, Or.inr (Or.inl h)⟩
+      · right; exact ⟨c, rest, ⟨rfl, rfl⟩, Or.inr (Or.inr h)⟩
+    · rintro (⟨c', rest', ⟨rfl, rfl⟩, ha⟩ | ⟨c', rest', ⟨rfl, rfl⟩, h | h | h⟩)
+      · left; left; left; exact ⟨by simpa using (isAlpha_ascii_iff _).mpr ha, by simp⟩
+      · left; left; right; exact h
+      · left; right; exact h
+      · right; exact h
+
+/-- drive letters, separators and dots; bare names, non-ASCII letters and a letter without `:` do not match -/
+example : (["C:\\x.exe", "c:", "/bin/ls", "\\\\srv\\x", "./run", "..", "."].all (fun s => fullPathMatch s.toList)) = true ∧
+    (["ls", "C", "Cx:", "é:", "1:", ":", "", "~/x", "-x"].any (fun s => fullPathMatch s.toList)) = false := by
+  decide +kernel
 
 /-- **B607 fires**: a configured function whose executable is a literal that does not start with a
 path separator, `.` or a drive letter -/
